@@ -89,13 +89,14 @@ PROPS["C02"] = {
 }
 
 PROPS["C18"] = {
-    "drivers": [MAIN],
+    "drivers": [MAIN, dict(COOKIE, prop="C18")],
     "rule": "(1) cookies.MakeCookieFromOptions on option combinations {secure, httponly, samesite x4, path x2, 7 domain sets of 0-3 nested "
             "domains, 3 names, 4 expirations} x 17 hosts (exact, sub-domain, look-alike, unrelated, with port, IPv6, upper case, trailing dot, "
             "empty) x X-Forwarded-Host {absent, matching, unrelated} x reverse-proxy on/off: the serialised cookie is compared byte for byte "
             "with the model; (2) a monitor on every Set-Cookie of complete flows (unauthenticated, start, callback, request, refresh, bad "
             "callback, sign-out) of 6 proxy configurations incl. server-side store, split cookies, nested domains with port, reverse proxy "
-            "and a spoofed X-Forwarded-Host with reverse-proxy off; non-trivial = all; distinct = distinct model call",
+            "and a spoofed X-Forwarded-Host with reverse-proxy off; (3) the cookie-store save sweep of C10 (sizes byte-by-byte around the "
+            "split thresholds, 12 name/domain configurations) for the 4096-byte clause; non-trivial = all; distinct = distinct model call",
     "assumptions": ["net/http Cookie.String() is modelled (Model/Cookies.v: attribute order, Domain validity rule, Max-Age rendering)",
                     "configured domains are sorted longest-first (validation does it with sort.Slice; equal lengths excluded in the sweep)"],
     "trusted_base": ["reference Domain rule written in the driver (vRefDomain) from the property text, independent of repository code"],
